@@ -35,7 +35,9 @@ type Ctx struct {
 	// IsRepo tells whether a callee's body should be summarised; others are
 	// treated as pure if Pure says so and as writing everything otherwise.
 	IsRepo func(*ssa.Function) bool
-	sums   map[*ssa.Function]*wset
+	// Callees resolves dynamic calls (call graph); nil = unknown callee.
+	Callees func(site ssa.CallInstruction) []*ssa.Function
+	sums    map[*ssa.Function]*wset
 	busy   map[*ssa.Function]bool
 	fns    map[*ssa.Function]*Fn
 }
@@ -68,7 +70,7 @@ func (w *wset) merge(o *wset) {
 // functions do not write memory reachable from the analysed program's own
 // data structures (they return fresh values).
 func DefaultPure(name string) bool {
-	for _, p := range []string{"strings.", "unicode.", "unicode/utf8.", "math.", "strconv.", "path/filepath.", "path.", "time.", "(time.", "(*time.", "fmt.Sprint", "fmt.Errorf", "fmt.Print", "fmt.Fprint", "errors.", "os.Stat", "os.Getenv", "os.LookupEnv", "os.ReadFile", "os.IsNotExist", "os.IsPermission", "os.MkdirAll", "os.UserHomeDir", "os.UserConfigDir", "os.Executable", "regexp.", "(*regexp.Regexp).", "(*strings.Builder).", "crypto/sha256.", "log.", "runtime.", "github.com/sahilm/fuzzy.Find", "(*container/list.List).Len", "(*container/list.List).Back", "(*container/list.List).Front", "(*container/list.Element).", "(*sync.", "sync/atomic.Load", "(*os.File).", "(io/fs.FileInfo).", "(os.FileInfo).", "os.CreateTemp", "os.Rename", "os.Remove", "os.WriteFile", "os.Getwd", "os.ReadDir"} {
+	for _, p := range []string{"strings.", "unicode.", "unicode/utf8.", "math.", "strconv.", "path/filepath.", "path.", "time.", "(time.", "(*time.", "fmt.Sprint", "fmt.Errorf", "fmt.Print", "fmt.Fprint", "errors.", "os.Stat", "os.Getenv", "os.LookupEnv", "os.ReadFile", "os.IsNotExist", "os.IsPermission", "os.MkdirAll", "os.UserHomeDir", "os.UserConfigDir", "os.Executable", "regexp.", "(*regexp.Regexp).", "(*strings.Builder).", "crypto/sha256.", "log.", "runtime.", "github.com/sahilm/fuzzy.Find", "(*container/list.List).", "container/list.", "(*container/list.Element).", "sync/atomic.", "encoding/json.Marshal", "crypto/sha256.", "(*sync.", "sync/atomic.Load", "(*os.File).", "(io/fs.FileInfo).", "(os.FileInfo).", "os.CreateTemp", "os.Rename", "os.Remove", "os.WriteFile", "os.Getwd", "os.ReadDir"} {
 		if strings.HasPrefix(name, p) {
 			return true
 		}
@@ -184,6 +186,9 @@ func (c *Ctx) instrWrites(in ssa.Instruction) *wset {
 				}
 			case *ssa.Alloc, *ssa.FreeVar, *ssa.Global, *ssa.IndexAddr:
 				addStructFields(w, derefType(x.Addr.Type()), 0)
+				if strings.HasPrefix(k, "L:") {
+					addLocalFields(w, k, derefType(x.Addr.Type()), 0)
+				}
 			}
 		}
 	case *ssa.MapUpdate:
@@ -254,6 +259,21 @@ func (c *Ctx) instrWrites(in ssa.Instruction) *wset {
 		}
 		if cc.IsInvoke() {
 			if c.Pure != nil && c.Pure(name) {
+				return w
+			}
+		}
+		if c.Callees != nil {
+			cs := c.Callees(x)
+			if len(cs) > 0 {
+				for _, t := range cs {
+					switch {
+					case c.IsRepo != nil && c.IsRepo(t) && t.Blocks != nil:
+						w.merge(c.summary(t))
+					case c.Pure != nil && c.Pure(ssau.FuncName(t)):
+					default:
+						w.all = true
+					}
+				}
 				return w
 			}
 		}
@@ -607,6 +627,13 @@ func (f *Fn) expr(v ssa.Value, ver bool, d int) string {
 			case *ssa.IndexAddr:
 				return f.expr(a.X, ver, d+1) + "[" + f.expr(a.Index, ver, d+1) + "]" + at(x)
 			case *ssa.Alloc:
+				if ver && d < 30 {
+					if _, isStruct := derefType(a.Type()).Underlying().(*types.Struct); !isStruct {
+						if vals, ok := f.ReachingStores(x); ok && len(vals) == 1 {
+							return f.expr(vals[0], ver, d+1)
+						}
+					}
+				}
 				return allocName(a) + at(x)
 			case *ssa.FreeVar:
 				return a.Name() + at(x)
@@ -938,6 +965,21 @@ func nonEscaping(al *ssa.Alloc) bool {
 					ok = false
 				}
 			case *ssa.DebugRef:
+			case *ssa.MakeClosure:
+				// captured by a closure: fine if the closure (and the closures it
+				// creates) only ever load from the captured variable
+				fn, isFn := u.Fn.(*ssa.Function)
+				if !isFn {
+					ok = false
+					break
+				}
+				for i, b := range u.Bindings {
+					if b == addr {
+						if i >= len(fn.FreeVars) || !readOnlyFreeVar(fn.FreeVars[i], 0) {
+							ok = false
+						}
+					}
+				}
 			default:
 				ok = false
 			}
@@ -954,6 +996,12 @@ func localKey(addr ssa.Value) string {
 	path := ""
 	for i := 0; i < 8; i++ {
 		switch a := addr.(type) {
+		case *ssa.FreeVar:
+			al := resolveFreeVar(a)
+			if al == nil {
+				return ""
+			}
+			addr = al
 		case *ssa.Alloc:
 			if !nonEscaping(a) {
 				return ""
@@ -967,4 +1015,91 @@ func localKey(addr ssa.Value) string {
 		}
 	}
 	return ""
+}
+
+// ReachingStores enumerates the values written by the stores that can reach
+// the load u, when every reaching definition is a store in this function to
+// exactly the loaded location (ok == false otherwise: the location may have
+// been written by a call, or holds its entry value).
+func (f *Fn) ReachingStores(u *ssa.UnOp) (vals []ssa.Value, ok bool) {
+	key, loc := f.LoadKey(u)
+	if key == "" {
+		return nil, false
+	}
+	seen := map[string]bool{}
+	var resolve func(ver string) bool
+	resolve = func(ver string) bool {
+		if seen[ver] {
+			return true
+		}
+		seen[ver] = true
+		if in := f.InstrByID(ver); in != nil {
+			st, isSt := in.(*ssa.Store)
+			if !isSt {
+				return false
+			}
+			if _, l2 := f.LoadKeyOfAddr(st.Addr); l2 != loc {
+				return false
+			}
+			vals = append(vals, st.Val)
+			return true
+		}
+		if jb := f.JoinBlock(ver); jb != nil {
+			for _, p := range jb.Preds {
+				if !resolve(f.OutVersion(p, key)) {
+					return false
+				}
+			}
+			return true
+		}
+		return false
+	}
+	if !resolve(f.Version(u)) {
+		return nil, false
+	}
+	return vals, len(vals) > 0
+}
+
+// readOnlyFreeVar: the captured variable is only loaded (possibly by nested
+// closures), never stored to or passed on.
+func readOnlyFreeVar(fv *ssa.FreeVar, d int) bool {
+	if d > 4 || fv.Referrers() == nil {
+		return false
+	}
+	for _, ref := range *fv.Referrers() {
+		switch u := ref.(type) {
+		case *ssa.UnOp:
+			if u.Op != token.MUL {
+				return false
+			}
+		case *ssa.DebugRef:
+		case *ssa.MakeClosure:
+			fn, ok := u.Fn.(*ssa.Function)
+			if !ok {
+				return false
+			}
+			for i, b := range u.Bindings {
+				if b == ssa.Value(fv) && (i >= len(fn.FreeVars) || !readOnlyFreeVar(fn.FreeVars[i], d+1)) {
+					return false
+				}
+			}
+		default:
+			return false
+		}
+	}
+	return true
+}
+
+// addLocalFields gives every field of a local struct cell its own version on
+// a whole-struct store, so that later writes to sibling fields leave it alone.
+func addLocalFields(w *wset, prefix string, t types.Type, depth int) {
+	st, ok := t.Underlying().(*types.Struct)
+	if !ok || depth > 2 {
+		return
+	}
+	for i := 0; i < st.NumFields(); i++ {
+		k := prefix + "." + st.Field(i).Name()
+		w.add(k)
+		addLocalFields(w, k, st.Field(i).Type(), depth+1)
+	}
 }
